@@ -537,7 +537,26 @@ func c06Additive(c *Ctx, a *sketchAnchors) {
 							bad = "store method other than Add/AddWithCount: " + t.Sym
 						}
 					}
-				case *ssa.Store, *ssa.MapUpdate:
+				case *ssa.Store:
+					// a store into memory this function has just allocated (the argument list of a variadic call such as
+					// fmt.Errorf, a local variable's cell) is not a write to the store
+					root := in.Addr
+					for {
+						switch x := root.(type) {
+						case *ssa.IndexAddr:
+							root = x.X
+							continue
+						case *ssa.FieldAddr:
+							root = x.X
+							continue
+						}
+						break
+					}
+					if _, fresh := root.(*ssa.Alloc); fresh {
+						continue
+					}
+					bad = "direct write in the generic decoder"
+				case *ssa.MapUpdate:
 					bad = "direct write in the generic decoder"
 				}
 			}
